@@ -673,9 +673,10 @@ def parse_assignment_indices(indices, shape):
             # Note: We now have stop >= start and step >= 0
 
             div, mod = divmod(stop - start, step)
-            if not div and not mod:
-                # stop equals start => zero-sized slice for this
-                # dimension
+            if stop <= start:
+                # stop at or before start => zero-sized slice for this
+                # dimension (an empty reversed slice is recast with
+                # stop < start, so equality alone is not enough)
                 implied_shape.append(0)
             else:
                 if mod != 0:
